@@ -54,6 +54,7 @@ Frag ==
   @@ "nestE2"  :> F(("FnestD.In.X" :> Call("CvE3", Src("FnestD.In.X"))) @@ ("FnestD.In.Y" :> Src("FnestD.In.Y")) @@ ("FnestD.K" :> Src("FnestD.K")),
                     {"CvE3"}, {"CvE3"})                                     \* error-returning converter two structs deep
   @@ "ptr"     :> F("Fptr" :> Src("Fptr"), {}, {})                           \* pointer value copied
+  @@ "mapptr"  :> F("Fmp" :> Src("Pq"), {}, {})                            \* :map Pq Fmp, both *int: the pointer itself is the value - nil included
   @@ "npath"   :> F("Fnp" :> Via("Pn", "Pn.X"), {}, {})                      \* :map Pn.X Fnp through the pointer member Pn *EN
   @@ "sibpfx"  :> F(("Fsp.X" :> Lit("42")) @@ ("Fsp.Y" :> Src("Fsp.Y")) @@ ("FspQ.Pub" :> Src("FspQ.Pub")) @@ ("FspQ.hid" :> Src("FspQ.hid")), {}, {})
                                                                                \* :literal Fsp.X 42 makes Fsp member-wise; its sibling FspQ - whose name merely STARTS like it -
